@@ -1264,7 +1264,7 @@ C10_PAIR = ['put', 'putupdate', 'putfirst', 'putfirstnew', 'putlast', 'putlastne
 # every other public method: self-deadlock obligation only
 C10_GUARD = ['setmax', 'sort', 'keyarray', 'valuearray', 'keys', 'values', 'entries', 'tostring', 'toformatstring',
              'getfirstkey', 'getlastkey', 'getfirstvalue', 'getlastvalue', 'getkeyset', 'tokeyset', 'valueiterator',
-             'tobytes', 'toobject', 'setnullvalue', 'putall']
+             'tobytes', 'toobject', 'setnullvalue', 'putall', 'putallself']
 
 
 def c10_ops(t):
@@ -1318,6 +1318,9 @@ def c10_ops(t):
         elif o == 'toobject':
             if 'tobytes' in have:
                 guard.append(o)
+        elif o == 'putallself':
+            if 'putall' in have and N != 'IntSet':
+                guard.append(o)  # a map merged into itself (source lock == destination lock)
         elif o in have:
             guard.append(o)
     return pair, guard
@@ -1489,6 +1492,8 @@ func zzPre10_%(N)s(n int) *%(N)s {
                 case(o, 'm.PutAll([]int32{%s, %s})' % (KN, K0))
             else:
                 casem(o, ['o := zzNew10_%s()' % N, 'o.Put(%s)' % kv(KN), 'o.Put(%s)' % kv(K0), 'm.PutAll(o)'])
+        elif o == 'putallself':
+            case(o, 'm.PutAll(m)')
         else:
             raise SystemExit('C10: unknown op ' + o)
     w('	}')
